@@ -205,7 +205,7 @@ def expected_getitem(dims, labels, descs, tol=None):
     return out
 
 
-def check_getitem(res, values, dims, labels, descs, what, tol=None, keepdims=False, sig=None):
+def check_getitem(res, values, dims, labels, descs, what, tol=None, keepdims=False, sig=None, kinds=False):
     """compare the library's answer `res` with the model's for source (values, dims, labels).
     `values` is a plain ndarray that is only ever indexed with integer positions here."""
     from . import core
@@ -247,7 +247,15 @@ def check_getitem(res, values, dims, labels, descs, what, tol=None, keepdims=Fal
             core.check(len(match) > 0, "labels", {"what": what, "dim": d, "got": core.jsonable(got),
                        "expected_one_of": [[core.jsonable(labs[q]) for q in a] for a in alts]}, sig)
             final.append([match[0]])
+            if kinds and len(labs) and len(got):
+                # a selection hands labels through: integer labels stay integers, strings stay strings
+                ek, gk = core._pykind(labs), res.axes[ri].values.dtype.kind
+                gk = "i" if gk in "iu" else ("s" if gk in "OUS" else gk)
+                core.check(ek is None or gk == ek, "label-kind", {"what": what, "dim": d, "got_dtype": str(res.axes[ri].values.dtype), "source_kind": ek}, sig)
             ri += 1
+    if kinds:
+        # ... and the data are not converted either (also when nothing is selected)
+        core.check(np.asarray(res.values).dtype == values.dtype, "value-dtype", {"what": what, "got": str(np.asarray(res.values).dtype), "source": str(values.dtype)}, sig)
     # values: orthogonal selection on the source array
     combos = list(itertools.product(*final))
     last = None
